@@ -69,6 +69,19 @@ def run_e2e(args):
                     except Exception as e:  # noqa: BLE001
                         r["ifaces"][f"{iface}/{shuffle}"] = f"{type(e).__name__}: {str(e)[:100]}"
             rec["runs"].append(r)
+        # back-to-back passes on the same handle, each with its own short-lived inline predicate (the usual way to write it)
+        codes_all = sorted({m for m in rec["mds"]})
+        seqs = [[codes_all[0]], [codes_all[-1]], [9999], [codes_all[0], codes_all[-1]], [codes_all[-1]]]
+        rec["inline"] = []
+        for iface in I.IFACES:
+            if not I.supports(iface, a["fmt"], a["comp"]) or "shard_filter" not in ACCEPTS[iface]: continue
+            for keep in seqs:
+                try:
+                    got, _ = I.run_iface(ds, iface, "train", shuffle=0, T=2, shard_filter=(lambda si, keep=tuple(keep): int(si.custom_metadata.get("k", 0)) in keep))
+                    got = sorted(got)
+                except Exception as e:  # noqa: BLE001
+                    got = f"{type(e).__name__}: {str(e)[:100]}"
+                rec["inline"].append({"iface": iface, "keep": keep, "got": got})
         # the Rust interface with several passes alive at once, each with its own selection (A ends while B is mid-pass, then C opens)
         if I.supports("rust", a["fmt"], a["comp"]) and len(infos) >= 3:
             codes = sorted({int(si.custom_metadata.get("k", 0)) for si in infos})
@@ -165,6 +178,16 @@ def run(ctx):
                 elif got != exp_ids:
                     ctx.report({"kind": "iface-selection", "iface": iface, "option": sig_opt, "format_tfrec": r["case"]["fmt"] == "tfrec", "nested_metadata": nested},
                                f"{r['case']['fmt']} {key} with {opt}: yields {str(got)[:120]} but the selected shards {want} hold {exp_ids}", {"case": r["case"], "opt": opt, "got": got})
+    for r in recs:
+        for x in r.get("inline", []):
+            nruns += 1
+            sel = [i for i, m in enumerate(r["mds"]) if m in set(x["keep"])]
+            want = sorted(v for i in sel for v in r["shard_ids"][i]) if sel else "error"
+            ok = (isinstance(x["got"], str) and x["got"].startswith("ValueError")) if want == "error" else x["got"] == want
+            if not ok:
+                ctx.report({"kind": "iface-selection", "iface": x["iface"], "option": "consecutive-inline-predicates"},
+                           f"{r['case']['fmt']} {x['iface']}: consecutive passes with different inline predicates: keeping metadata {x['keep']} yields {str(x['got'])[:100]} instead of {str(want)[:100]}",
+                           {"case": r["case"], "pass": x, "want": want})
     for r in recs:
         ov = r.get("overlap")
         if ov is None: continue
